@@ -486,7 +486,7 @@ impl Scenario for ShutdownSim {
                 let net_s = net.clone();
                 let server = tokio::task::spawn_local({
                     let tls_cfg = if case.tls { Some(crate::tlsfix::server_config(crate::tlsfix::CertKind::Good, &[])) } else { None };
-                    let f = run_server_opts(acc, case.proto, tls_cfg, ctx, exec.clone(), Some(rx), case.native_builder);
+                    let f = run_server_opts(acc, case.proto, tls_cfg, ctx, exec.clone(), Some(rx), case.native_builder, false);
                     async move {
                         let r = f.await;
                         // completion instant (and how much of the clock's progress was the time pump's)
